@@ -88,6 +88,10 @@ def rec_pairs(seed):
     m = np.random.default_rng(seed).random((h, w)) < 0.08
     for _ in range(rng.randint(0, 3)):
         d[rng.randrange(h), rng.randrange(w)] = rng.choice([np.nan, np.inf])
+    # the error map may be non-finite where the pixel is excluded anyway (masked bad pixels, NaN data)
+    if rng.random() < 0.5:
+        excl = m | ~np.isfinite(d)
+        e = np.where(excl & (np.random.default_rng(seed + 3).random((h, w)) < 0.7), [np.nan, np.inf][seed % 2], e)
     pos = [(rng.uniform(-3, w + 2), rng.uniform(-3, h + 2)) for _ in range(rng.randint(1, 4))] + [(-20.0, 3.0)]
     r = rng.uniform(1.0, 3.5)
     method = rng.choice(['exact', 'center', 'subpixel'])
